@@ -94,10 +94,12 @@ func (ex *Exec) call(s *State, fr *Frame, c *ssa.Call, k cont) {
 // calls the body sequentially, any number of times, and never again after a call returned false;
 // and (like every yield in this model) neither it nor the callback writes the tree.
 // The body closure is a function under contract:
-//   requires     - holds at the first call (proved here) and, by the body's own
-//                  ensures[reentry] implies(result, <requires>), at every later one
-//   closure_inv  - holds when no call has been made (proved here) and after every complete call
-//                  (proved at the body's exits); assumed here for the state the loop leaves behind
+//
+//	requires     - holds at the first call (proved here) and, by the body's own
+//	               ensures[reentry] implies(result, <requires>), at every later one
+//	closure_inv  - holds when no call has been made (proved here) and after every complete call
+//	               (proved at the body's exits); assumed here for the state the loop leaves behind
+//
 // The cells the body writes and the ghost 'stopped' flag are havocked.
 func (ex *Exec) iteratorCall(s *State, fr *Frame, c *ssa.Call, it FuncV, body FuncV, bf *ssa.Function, k cont) {
 	ct, name := ex.contractFor(bf)
